@@ -40,6 +40,9 @@ type topo struct {
 	Rnd string `json:"rnd_connector_matrix,omitempty"`
 	// reference verdict
 	Invalid string `json:"invalid,omitempty"`
+	// ErrFlavour: what a failing stub's error wraps besides its own message (0 nothing, 1 a deadline error of its own,
+	// 2 a cancellation of its own, 3 a permanent consumer error)
+	ErrFlavour int `json:"failing_components_error_flavour,omitempty"`
 	// ShutCtxDone (C10): service.Shutdown is called with a context that is already cancelled; a component whose
 	// Shutdown fails then fails with (a wrap of) that context's error
 	ShutCtxDone bool `json:"shutdown_context_done,omitempty"`
@@ -85,6 +88,7 @@ func genTopo(tp *simkit.Tape, small bool) topo {
 	expPool := []string{"exp/1", "exp/2", "mexp/1", "exp/x", "exp/X"}
 	connPool := []string{"fwd/1", "conv/1", "conv/2", "l2m/1", "forward/1", "asym/1", "rnd/1", "rnd/2", "rt/1", "rt/1"}
 	rtMode = tp.Draw(10) // 7: varies per payload
+	stubErrFlavour = tp.Weighted(3, 1, 1, 1)
 	// the support matrix of connector type "rnd" in this run: every cell drawn on its own (about 2 in 3 supported)
 	bits := tp.Draw(1 << 16)
 	bits2 := tp.Draw(1 << 16)
@@ -116,6 +120,7 @@ func genTopo(tp *simkit.Tape, small bool) topo {
 			}
 		}
 		t.RtMode = rtMode
+		t.ErrFlavour = stubErrFlavour
 		t.Rnd = "(unused)"
 		t.Invalid = t.validate()
 		return t
@@ -195,6 +200,7 @@ func genTopo(tp *simkit.Tape, small bool) topo {
 		t.Rnd += " "
 	}
 	t.RtMode = rtMode
+	t.ErrFlavour = stubErrFlavour
 	t.Invalid = t.validate()
 	return t
 }
